@@ -395,6 +395,7 @@ func init() {
 			"suite tiny: ALL byte strings of length <= 3 over each format's marker alphabet x all cut sets; suite exhaustive: documents of <= 11 (quick) / 14 (thorough) bytes built to contain multi-byte tokens x ALL 2^(n-1) cut sets; suite systematic: longer documents x every single cut, " +
 			"all pairs of cuts (n<=48), strides 1..65, random cut sets with empty chunks, cuts at the first/last byte of every token. Entry points: ParseReader(chunking reader, incl. data together with io.EOF) " +
 			"and Write*+end-of-input (hook; chunks scribbled after each Write). Oracle: event list and accept/reject equal those of the whole-buffer Parse (verdict only for rejected documents). " +
+			"suite large: 64 KiB..2 MiB documents of extreme shapes (long strings/keys/literals, 10^5..10^6 nesting levels or tiny values, many concatenated documents) x 12 delivery modes (ParseString, 1/3/4099-byte writes, 1/17-byte reads, bytes decoder, reader decoders with buffers 16..65536): event count, completed documents and a hash of the CBOR re-encoding of the events equal those of Parse. " +
 			"distinct_nontrivial = distinct (codec, document) pairs.",
 		Assumptions: []string{
 			"OnString vs OnStringRef (by-value vs by-reference delivery) is normalised away; it legitimately depends on the chunk boundary",
